@@ -4,6 +4,9 @@ manifest stays valid while checks are added)."""
 import json, os
 ROOT = os.path.dirname(os.path.abspath(__file__))
 CHECKS = {
+ "C02": dict(level="fault_enumeration", technique="exhaustive loss-subset enumeration of small sessions + threshold-biased sampled loss; decodability predicate from the delivered list (reference partition) vs monitoring-writer outcome",
+     text="For every small-session shape of the catalogue every subset of the object packets (2^n, n<=13 quick / 16 thorough) is delivered in order, each also with a duplicated packet; larger random sessions get losses tuned to k-1/k/k+1 symbols per block, bursts and lost FDT copies. Whenever the delivered list satisfies the property's precondition (computed independently) the writer must complete with exact bytes. Complete for the enumerated shapes, sampled beyond.",
+     note="trusted: independent decoder, reference partition, FDT-before-object precondition", ref="DESIGN.md §5 C02"),
  "C08": dict(level="exploration", technique="stream monitor: independent decoder + reference partition per transfer/block, RFC-only reassembly with independent inflate, A/B flag trace automaton; removal at every packet index",
      text="Sender-only runs on a virtual clock (systematic grid over 5 FEC x E x B x parity x interleave 1..5 x length lattice, random multi-object sessions with cenc/sources/transfer counts, removal at every packet index with carousel and immediate-stop variants): the emitted stream is cut into transfers with the public Start/StopTransfer events and each transfer is judged block by block against the u128 reference partition and a flag automaton. Held on the runs executed.",
      note="trusted: vh::wire decoder, reference partition, harness flate2; known finding KF-C08-raptor-semi-equal-symbols", ref="DESIGN.md §5 C08"),
